@@ -56,6 +56,17 @@ func checkC13(c *Ctx) {
 	} else {
 		c.Trivial("ALL-MEMBERS", "scan", 0, fmt.Sprintf("%d gzip readers, none with Multistream switched off", sites))
 	}
+	c.Decides("WRITES: reference count of the write calls of the Nexus and PhyloXML writers, per function (a deleted keyword, closing tag or tree line lowers it)")
+	{
+		var writers []*FuncInfo
+		for _, fi := range c.AllFuncs("io/nexus", "io/phyloxml") {
+			if strings.HasPrefix(strings.ToLower(fi.Obj.Name()), "write") {
+				writers = append(writers, fi)
+			}
+		}
+		c.writerWrites("WRITES", writers, "Converting a tree between Newick, Nexus and PhyloXML and back gives the same tree")
+	}
+	c.Floor("WRITES", 10)
 	c.Decides("BLANKS-AGREE: every in-line white-space character of the Newick lexer (isWhitespace minus the line terminators) is a blank for the multi-tree splitter's end-of-tree test, so that `;` followed by blanks ends a tree for the multi-tree reader exactly where the single-tree reader stops")
 	c.blanksAgree("BLANKS-AGREE", c.Func("io/fileutils", "", "ReadUntilSemiColon"), c.Func("io/newick", "", "isWhitespace"), "Every tree of a multi-tree file is delivered in file order ... none is silently skipped")
 	c.Floor("BLANKS-AGREE", 1)
